@@ -208,7 +208,7 @@ macro_rules! conc_mod {
                 let mut outs = vec![];
                 for order in interleavings(&lens) {
                     let mut ctx = Ctx::default();
-                    let mut st = St { nodes: vec![] };
+                    let mut st = St { nodes: vec![], twins: vec![] };
                     // rebuild the initial state from the case prefix (new / connect lines only)
                     for l in prefix {
                         let t: Vec<&str> = l.split(' ').collect();
